@@ -47,7 +47,7 @@ def with_home(fn):
 
 
 def run(sh):
-    n = 300 if sh.tier == 'quick' else 6000
+    n = 300 if sh.tier == 'quick' else 50000
     with_home(lambda: engine_line.run_profile(sh, 'C15', 'records', n, MONITORS, nontrivial))
 
 
